@@ -107,7 +107,9 @@ func (g *GoBackend) Generate(req *plugin.Request, log backend.LogFunc) *plugin.R
 		}
 	}
 	if !g.utils.Features().ThriftStreaming {
-		g.removeStreamingFunctions(req.GetAST())
+		for ast := range req.GetAST().DepthFirstSearch() {
+			g.removeStreamingFunctions(ast)
+		}
 	}
 
 	if g.utils.Features().SkipGoGen {
